@@ -11,6 +11,7 @@ import numpy as np
 from pb_bss.distribution import (
     CACGMMTrainer, CWMMTrainer, CBMMTrainer, GMMTrainer, VMFMMTrainer, GCACGMMTrainer, VMFCACGMMTrainer,
 )
+from pb_bss.distribution import ComplexWatsonTrainer  # noqa: F401  (contract checks of the Watson M-step)
 from pb_bss.utils import unsqueeze
 
 TINY = np.finfo(np.float64).tiny
